@@ -399,6 +399,7 @@ def generate(r):
         k = 15 + rng.below(2)
         for d in range(-3, 4):
             oracle_only_case(r, (1 << k) + d)
+        revisit(r, rng, 40)
         return
     full_upto = 1024
     pick = rng.below(16)
@@ -416,6 +417,15 @@ def generate(r):
     full_case(r, 4097 + rng.below(4096))
     for n in big:
         oracle_only_case(r, n)
+    revisit(r, rng, 200)
+
+
+def revisit(r, rng, count):
+    """after the (ascending) sweep: small worker counts again, in random order, on the tracker objects that have by now
+    served thousands of larger jobs -- the maps must not depend on what the object (or the class) was asked before"""
+    for _ in range(count):
+        n = 1 + rng.below(96) if rng.below(4) else 1 + rng.below(2048)
+        full_case(r, n) if n <= 512 else oracle_only_case(r, n)
 
 
 def run_replay(r, path):
